@@ -1154,7 +1154,29 @@ class ModelBuilder:
                                 already_exists = True
                                 break
                         if not already_exists:
-                            existing_deps.append(source_task)
+                            # The options of the precedes statement (gaps, onstart/onend) belong
+                            # to the dependency it creates, as if the target had written them
+                            options = (
+                                {
+                                    key: prec_item.get(key)
+                                    for key in ("gapduration", "gaplength", "maxgapduration", "onstart", "onend")
+                                }
+                                if isinstance(prec_item, dict)
+                                else {}
+                            )
+                            if any(options.values()):
+                                existing_deps.append(
+                                    {
+                                        "task": source_task,
+                                        "gapduration": options["gapduration"],
+                                        "gaplength": options["gaplength"],
+                                        "maxgapduration": options["maxgapduration"],
+                                        "onstart": options["onstart"] or False,
+                                        "onend": options["onend"] or False,
+                                    }
+                                )
+                            else:
+                                existing_deps.append(source_task)
                             target_task[("depends", scIdx)] = existing_deps
 
     def _resolve_task_reference(self, project: Project, from_task: Task, ref: str) -> Optional[Task]:
